@@ -221,7 +221,12 @@ def evaluate(case) -> Result:
         # a peer that still has a connection cannot be the probe peer
         # (also when the node has not noticed the loss yet: two simultaneous connections of one
         # peer are the known finding recorded for C12/C13, not this property's subject)
-        if any(c.host == host and not c.node_closed for c in w.conns):
+        pm = w.mods["peer"]
+
+        def node_thinks_live(c):
+            nc = w.node_conn_for(c)
+            return nc is not None and nc.state != pm.PEER_CLOSED
+        if any(c.host == host and not c.node_closed and node_thinks_live(c) for c in w.conns):
             host = "peer3.example"
         got = probe(w, case, host)
         want = fresh_probe(case, host)
